@@ -37,7 +37,7 @@ def mutate(raw, rng):
         chunks = iffparse.parse(raw)
     except iffparse.Malformed:
         return None
-    kind = rng.choice(("cval", "cval", "cval", "chdt", "slnk", "slnk-free-last", "slnk2", "pdta", "pdta-long", "cmid-param", "extra-cvals"))
+    kind = rng.choice(("cval", "cval", "cval", "chdt", "slnk", "slnk-duplicate", "slnk-duplicate", "slnk-free-last", "slnk2", "pdta", "pdta-long", "cmid-param", "extra-cvals"))
     out = [[c[0], c[1]] for c in chunks]
     if kind == "cval":
         idx = [i for i, c in enumerate(out) if c[0] == b"CVAL"]
@@ -61,6 +61,21 @@ def mutate(raw, rng):
         n = len(out[i][1]) // 4
         vals = list(struct.unpack("<" + "i" * n, out[i][1]))
         vals[rng.randrange(n)] = rng.randint(-1, max(0, nmods - 1))
+        out[i][1] = struct.pack("<" + "i" * n, *vals)
+    elif kind == "slnk-duplicate":
+        # one source module appears twice among a module's incoming links (two cables between the same two modules)
+        idx = [i for i, c in enumerate(out) if c[0] == b"SLNK" and len(c[1]) >= 8]
+        if not idx:
+            return None
+        i = rng.choice(idx)
+        n = len(out[i][1]) // 4
+        vals = list(struct.unpack("<" + "i" * n, out[i][1]))
+        live = [k for k, v in enumerate(vals) if v >= 0]
+        if not live:
+            return None
+        src = rng.choice(live)
+        dst = rng.choice([k for k in range(n) if k != src])
+        vals[dst] = vals[src]
         out[i][1] = struct.pack("<" + "i" * n, *vals)
     elif kind == "extra-cvals":
         # a file from a newer SunVox: more controller values than this library knows for the type (distinct, non-palindromic)
